@@ -5,13 +5,21 @@ agreement with the real `FixtureRegistry.check_*` / `resolve_tests_dependencies`
 the other modules, and a shrinker for delta debugging.
 
 Conventions of generated projects
-  * every name is an identifier without dots, globally unique (suites s<k>, tests t<k>, fixtures f<k>,
-    aliases f<k>b): a path is the list of names from the top-level suite down;
+  * fixture names are identifiers, globally unique (f<k>, aliases f<k>b).  Suite and test names only have to be
+    unique among their siblings: a name is reused elsewhere in the tree now and then (same-named sub-suites under
+    different parents, same-named TESTS in different suites — also as the dependency targets of one test), and a name
+    may contain dots (`@lcc.test(name="v1.2")`, parametrized naming schemes fed with version numbers / addresses).
+    A path is the LIST of names from the top-level suite down; `depends_on` is written with dotted strings, so the
+    targets of dependencies and their ancestors are kept dot-free and no two nodes have the same dotted path;
   * `Fixture.names`, when not null, starts with `Fixture.name` (the function / primary name);
   * pre_run fixtures run in the caller's thread outside the session: their scripts contain only
     `raise` acts (logging there is a user error: there is no cursor);
-  * `thread` acts nest at most once; scripts run inside `lcc.Thread` only raise plain exceptions
-    (an Abort* raised in a side thread is swallowed by `lcc.Thread.run`, which C08 does not talk about).
+  * `thread` acts nest at most once (no lcc.Thread started by an lcc.Thread); a script run inside `lcc.Thread` may
+    raise anything, Abort* included (`lcc.Thread.run` turns whatever ends the thread into an error log of the
+    location it was started in; an Abort* raised there aborts nothing — C08 speaks of the test's own thread);
+  * `attachw` acts (`with lcc.prepare_attachment(..):` around an inner script run by the same thread) nest up to
+    depth 2 and may contain every other act;
+  * a `raise` act with `"sub": true` raises an instance of a project-defined SUBCLASS of the Abort* class.
 """
 import copy
 
@@ -19,6 +27,7 @@ SCOPES = ["pre_run", "session", "suite", "test"]
 LEVEL = {"test": 1, "suite": 2, "session": 3, "pre_run": 4}
 HOOKS = ("setup_suite", "teardown_suite", "setup_test", "teardown_test")
 RAISE_KINDS = ["exc", "AbortTest", "AbortSuite", "AbortAllTests"]
+NESTED = ("thread", "attachw")       # acts that carry an inner script
 
 PROFILES = {
     # p_fail_*: probability that a script of that kind gets one failing act
@@ -114,7 +123,7 @@ def iter_acts(script):
     """every act of a script, inner thread scripts included"""
     for a in script:
         yield a
-        if a["a"] == "thread":
+        if a["a"] in NESTED:
             yield from iter_acts(a["script"])
 
 
@@ -174,10 +183,12 @@ def check_valid(project):
     # suites / tests
     tests = {}
     seen_suites = set()
+    dotted = set()          # dotted paths of all nodes: what `depends_on` strings and the path-keyed dicts of the loader see
     for sp, s, _ in iter_suites(project):
-        if tuple(sp) in seen_suites or "." in s["name"]:
-            raise Invalid("duplicate suite / dotted name")
+        if tuple(sp) in seen_suites or not s["name"] or ".".join(sp) in dotted:
+            raise Invalid("duplicate suite / ambiguous dotted path")
         seen_suites.add(tuple(sp))
+        dotted.add(".".join(sp))
         for n in suite_uses(s):
             if n not in byname:
                 raise Invalid("suite uses unknown fixture " + n)
@@ -189,9 +200,10 @@ def check_valid(project):
             raise Invalid("duplicate setup_suite param")
         names = set()
         for t in s["tests"]:
-            if t["name"] in names or "." in t["name"]:
-                raise Invalid("duplicate test name")
+            if t["name"] in names or not t["name"] or ".".join(sp + [t["name"]]) in dotted:
+                raise Invalid("duplicate test name / ambiguous dotted path")
             names.add(t["name"])
+            dotted.add(".".join(sp + [t["name"]]))
             tests[tuple(sp + [t["name"]])] = t
             for n in t["fixtures"]:
                 if n not in byname:
@@ -207,6 +219,8 @@ def check_valid(project):
                 raise Invalid("dangling dependency")
             if tuple(d) == p:
                 raise Invalid("self dependency")
+            if any("." in x for x in d):
+                raise Invalid("dependency target (or an ancestor of it) with a dotted name: not expressible as a path string")
     st = {}
 
     def tv(p, stack):
@@ -226,14 +240,21 @@ def check_valid(project):
                 for a in iter_acts(sc):
                     if a["a"] != "raise":
                         raise Invalid("pre_run scripts may only raise")
-    for unit, sc in scripts_of(project):
+    def walk(sc, in_thread, depth):
         for a in sc:
             if a["a"] == "thread":
-                for b in a["script"]:
-                    if b["a"] == "thread":
-                        raise Invalid("nested thread")
-                    if b["a"] == "raise" and b["kind"] != "exc":
-                        raise Invalid("Abort* inside lcc.Thread")
+                if in_thread:
+                    raise Invalid("nested thread")
+                walk(a["script"], True, depth)
+            elif a["a"] == "attachw":
+                if depth >= 2:
+                    raise Invalid("attachment blocks nested deeper than 2")
+                walk(a["script"], in_thread, depth + 1)
+            elif a["a"] == "raise":
+                if a["kind"] not in RAISE_KINDS or (a.get("sub") and a["kind"] == "exc"):
+                    raise Invalid("raise kind")
+    for unit, sc in scripts_of(project):
+        walk(sc, False, 0)
     if not (1 <= project["nb_threads"] <= 8):
         raise Invalid("nb_threads")
     return True
@@ -250,21 +271,33 @@ def is_valid(project):
 # scripts
 # ------------------------------------------------------------------------------------------------
 
-def _benign_act(rng, cfg, depth, steps):
+def _benign_act(rng, cfg, depth, steps, wdepth=0):
+    """depth: 1 inside the script of an lcc.Thread; wdepth: nesting of `with prepare_attachment` blocks"""
     r = rng.random()
-    if r < 0.40:
+    if r < 0.38:
         return {"a": "log", "level": rng.choice(["debug", "info", "info", "warn"])}
-    if r < 0.58:
+    if r < 0.54:
         return {"a": "check", "ok": True}
-    if r < 0.72:
-        steps[0] += 1
+    if r < 0.68:
+        # polling loops set the SAME step again and again: about a third of the step acts repeat the description
+        # of the previous one of the script
+        if not (steps[0] and rng.random() < 0.45):
+            steps[0] += 1
         return {"a": "step", "d": "step %d" % steps[0]}
-    if r < 0.80:
+    if r < 0.75:
         return {"a": "url"}
-    if r < 0.88:
+    if r < 0.82:
         return {"a": "attach"}
-    if r < 0.88 + cfg["p_thread"] and depth == 0:
-        inner = [_benign_act(rng, cfg, 1, steps) for _ in range(rng.randint(1, 3))]
+    if r < 0.82 + cfg.get("p_attachw", 0.05) and wdepth < 2:
+        # `with lcc.prepare_attachment(..):` around further acts of the same thread (a nested block or a
+        # save_attachment inside it, a step change, logs, an lcc.Thread started and joined inside)
+        inner = [_benign_act(rng, cfg, depth, steps, wdepth + 1) for _ in range(rng.choice([0, 1, 1, 2, 3]))]
+        if rng.random() < 0.5 and wdepth < 1:
+            inner.insert(rng.randint(0, len(inner)), rng.choice([{"a": "attach"}, {"a": "attachw", "script": [{"a": "log", "level": "info"}]},
+                                                                 {"a": "attachw", "script": []}]))
+        return {"a": "attachw", "script": inner}
+    if r < 0.87 + cfg["p_thread"] and depth == 0:
+        inner = [_benign_act(rng, cfg, 1, steps, wdepth) for _ in range(rng.randint(1, 3))]
         if rng.random() < 0.35:
             inner.insert(0, {"a": "gate"})
         if rng.random() < 0.3:
@@ -284,7 +317,20 @@ def _failing_act(rng, kinds):
         return {"a": "log", "level": "error"}
     if r < 0.45:
         return {"a": "check", "ok": False}
-    return {"a": "raise", "kind": rng.choice(kinds)}
+    kind = rng.choice(kinds)
+    act = {"a": "raise", "kind": kind}
+    if kind != "exc" and rng.random() < 0.4:
+        act["sub"] = True         # class EnvironmentDown(lcc.AbortAllTests): a project's own exception type
+    return act
+
+
+def _holders(acts, in_thread=False):
+    """(script list, inside an lcc.Thread?) of every script nested in `acts` (thread bodies and attachment blocks)"""
+    for a in acts:
+        if a["a"] in NESTED:
+            inside = in_thread or a["a"] == "thread"
+            yield a["script"], inside
+            yield from _holders(a["script"], inside)
 
 
 def gen_script(rng, cfg, p_fail, p_gate, max_len=4, kinds=None):
@@ -295,12 +341,12 @@ def gen_script(rng, cfg, p_fail, p_gate, max_len=4, kinds=None):
     if rng.random() < p_fail:
         kinds = cfg["kinds"] if kinds is None else kinds
         f = _failing_act(rng, kinds)
-        threads = [a for a in acts if a["a"] == "thread"]
-        if threads and rng.random() < 0.4:
-            if f["a"] == "raise":
-                f = {"a": "raise", "kind": "exc"}
-            t = rng.choice(threads)
-            t["script"].insert(rng.randint(0, len(t["script"])), f)
+        nested = list(_holders(acts))
+        if nested and rng.random() < 0.45:
+            # the failing act sits inside an lcc.Thread (any kind: `Thread.run` logs whatever ends the thread) or
+            # inside an attachment block (the exception leaves the block, then the unit)
+            sc, _ = rng.choice(nested)
+            sc.insert(rng.randint(0, len(sc)), f)
         else:
             acts.insert(rng.randint(0, len(acts)), f)
     return acts
@@ -355,9 +401,22 @@ def gen_project(rng, profile="basic"):
     def pick(names, k):
         return rng.sample(names, min(len(names), k)) if names else []
 
-    def mk_test():
+    used_test_names = []
+    DOTTED = ["v1.2", "10.0.0.1", "check_1.5", "a.b"]
+
+    def mk_test(siblings=()):
         name = "t%d" % ctr["t"]
         ctr["t"] += 1
+        # test names only have to be unique within their suite: now and then reuse the name of a test of another
+        # suite (users.prepare / orders.prepare), or take a name with dots in it (parametrized naming schemes)
+        cands = [n for n in used_test_names if n not in siblings]
+        if cands and rng.random() < 0.22:
+            name = rng.choice(cands)
+        elif rng.random() < cfg.get("p_dotted", 0.04):
+            cand = rng.choice(DOTTED)
+            if cand not in siblings:
+                name = cand
+        used_test_names.append(name)
         fxs = pick(all_names, rng.choice([0, 0, 1, 1, 2, 3]))
         if pt_names and rng.random() < (0.7 if cfg["need_perthread"] else 0.3):
             n = rng.choice(pt_names)
@@ -378,12 +437,18 @@ def gen_project(rng, profile="basic"):
         cands = [n for n in used_suite_names if n not in siblings]
         if cands and rng.random() < 0.22:
             name = rng.choice(cands)
+        elif rng.random() < cfg.get("p_dotted", 0.04) / 2:
+            cand = rng.choice(["api.v2", "pkg.mod"])         # @lcc.suite(name="api.v2")
+            if cand not in siblings:
+                name = cand
         used_suite_names.append(name)
         nt = min(budget[0], rng.choice([1, 1, 2, 2, 3, 4]))
         if rng.random() < cfg.get("p_empty", 0.06):
             nt = 0          # a suite left without tests (D1 lives here: keep it present but not dominant)
         budget[0] -= nt
-        tests = [mk_test() for _ in range(nt)]
+        tests = []
+        for _ in range(nt):
+            tests.append(mk_test([x["name"] for x in tests]))
         nsub = 0 if depth >= 3 or budget[0] <= 0 else rng.choice([0, 0, 0, 1, 1, 2])
         subs = []
         for _ in range(nsub):
@@ -426,6 +491,7 @@ def gen_project(rng, profile="basic"):
                "force_disabled": rng.random() < cfg["p_force"], "stop_on_failure": rng.random() < cfg["p_stop"]}
     if not any(True for _ in iter_tests(project)):
         suites[0]["tests"].append(dict(mk_test(), rank=1))
+    _disambiguate(project)
     # dependencies: edges only towards tests that come earlier in a random permutation (acyclic), which
     # gives forward references and cross-suite references
     paths = [p for p, *_ in iter_tests(project)]
@@ -434,11 +500,45 @@ def gen_project(rng, profile="basic"):
     pos = {tuple(p): i for i, p in enumerate(order)}
     p_dep = rng.choice([0.0, 0.15, 0.3, 0.5])
     for p, t, *_ in iter_tests(project):
-        earlier = [q for q in paths if pos[tuple(q)] < pos[tuple(p)]]
+        # (a dependency is written as a dotted path string: targets and their ancestors are dot-free)
+        earlier = [q for q in paths if pos[tuple(q)] < pos[tuple(p)] and not any("." in x for x in q)]
         if earlier and rng.random() < p_dep:
             t["deps"] = [list(q) for q in rng.sample(earlier, min(len(earlier), rng.choice([1, 1, 2])))]
+            # one test depending on SAME-NAMED tests of different suites (users.prepare + orders.prepare)
+            twins = [q for q in earlier if q not in t["deps"] and any(q[-1] == d[-1] for d in t["deps"])]
+            if twins and rng.random() < 0.9:
+                t["deps"].insert(rng.randint(0, len(t["deps"])), list(rng.choice(twins)))
     check_valid(project)
     return project
+
+
+def _disambiguate(project):
+    """two nodes with the same DOTTED path (suite `a` + test `b.c` next to suite `a.b` + test `c`) cannot be told
+    apart by the path-keyed tables of the loader: rename the later one (the generator's counter names are dot-free)"""
+    seen = set()
+    n = [0]
+
+    def fresh(prefix, taken):
+        while True:
+            n[0] += 1
+            cand = "%s%dx" % (prefix, n[0])
+            if cand not in taken:
+                return cand
+    for sp, s, _ in iter_suites(project):
+        key = ".".join(sp)
+        if key in seen:
+            holder = project["suites"]
+            for name in sp[:-1]:
+                holder = next(x for x in holder if x["name"] == name)["suites"]
+            s["name"] = fresh("s", {x["name"] for x in holder})
+            return _disambiguate(project)
+        seen.add(key)
+        for t in s["tests"]:
+            key = ".".join(sp + [t["name"]])
+            if key in seen:
+                t["name"] = fresh("t", {x["name"] for x in s["tests"]})
+                return _disambiguate(project)
+            seen.add(key)
 
 
 # ------------------------------------------------------------------------------------------------
@@ -505,17 +605,59 @@ def features(project):
                 f.add("act-thread")
                 if a.get("name"):
                     f.add("act-thread-named")
-                for b in a["script"]:
+                for b in iter_acts(a["script"]):
                     if act_fails(b):
                         f.add("fail-in-thread")
+                        if b["a"] == "raise" and b["kind"] != "exc":
+                            f.add("abort-raised-in-thread")
+                            if not any(act_fails(x) for x in iter_acts(sc) if x is not b):
+                                f.add("abort-in-thread-is-the-only-failure")
             if act_fails(a):
                 kind = a.get("kind") or ("error-log" if a["a"] == "log" else "failed-check")
                 f.add("fail:%s@%s" % (kind, where))
             if a["a"] in ("attach", "url", "step", "gate"):
                 f.add("act-" + a["a"])
+        prev = None
+        for a in sc:
+            if a["a"] == "step":
+                if a["d"] == prev:
+                    f.add("step-same-description-again")
+                prev = a["d"]
+
+        def blocks(acts, depth, in_thread):
+            for a in acts:
+                if a["a"] == "attachw":
+                    f.add("attach-block")
+                    if depth:
+                        f.add("attach-block+nested-block")
+                    if in_thread:
+                        f.add("attach-block-in-thread")
+                    for b in a["script"]:
+                        if b["a"] in ("attach", "step", "thread", "log", "check"):
+                            f.add("attach-block+" + b["a"])
+                        if act_fails(b):
+                            f.add("attach-block+failure")
+                    blocks(a["script"], depth + 1, in_thread)
+                elif a["a"] == "thread":
+                    blocks(a["script"], depth, True)
+        blocks(sc, 0, False)
+        for a in iter_acts(sc):
+            if a["a"] == "raise" and a.get("sub"):
+                f.add("raise-subclass:" + a["kind"])
     names = [s["name"] for _, s, _ in iter_suites(project)]
     if len(set(names)) < len(names):
         f.add("suite-name-reused")
+    if any("." in n for n in names):
+        f.add("suite-name-dotted")
+    tnames = [p[-1] for p, *_ in iter_tests(project)]
+    if len(set(tnames)) < len(tnames):
+        f.add("test-name-reused")
+    if any("." in n for n in tnames):
+        f.add("test-name-dotted")
+    for p, t, *_ in iter_tests(project):
+        last = [d[-1] for d in t["deps"]]
+        if len(set(last)) < len(last):
+            f.add("dep-on-same-named-tests")
     if project["force_disabled"]:
         f.add("force_disabled")
     if project["stop_on_failure"]:
@@ -655,21 +797,61 @@ def shrink_project(p):
             if t["disabled"]:
                 edit(lambda s2, ti=ti: s2["tests"][ti].__setitem__("disabled", False))
     # scripts: drop an act, flatten / shorten a thread act
+    def positions(sc, prefix=()):
+        """index paths of every act of a script, inner scripts included (outer acts first)"""
+        for j, a in enumerate(sc):
+            yield prefix + (j,), a
+        for j, a in enumerate(sc):
+            if a["a"] in NESTED:
+                yield from positions(a["script"], prefix + (j,))
+
+    def locate(sc, path):
+        for j in path[:-1]:
+            sc = sc[j]["script"]
+        return sc, path[-1]
     nslots = len(_script_slots(p))
     for k in range(nslots):
         holder, key = _script_slots(p)[k]
-        sc = holder[key]
-        for j, a in enumerate(sc):
+        for path, a in positions(holder[key]):
             q = copy.deepcopy(p)
             h2, k2 = _script_slots(q)[k]
-            del h2[k2][j]
+            sc2, j = locate(h2[k2], path)
+            del sc2[j]
             cands.append(q)
-            if a["a"] == "thread":
-                for jj in range(len(a["script"])):
-                    q = copy.deepcopy(p)
-                    h2, k2 = _script_slots(q)[k]
-                    del h2[k2][j]["script"][jj]
-                    cands.append(q)
+            if a["a"] == "attachw" and a["script"]:
+                # the block dissolved: its acts in its place
+                q = copy.deepcopy(p)
+                h2, k2 = _script_slots(q)[k]
+                sc2, j = locate(h2[k2], path)
+                sc2[j:j + 1] = copy.deepcopy(a["script"])
+                cands.append(q)
+            if a["a"] == "raise" and a.get("sub"):
+                q = copy.deepcopy(p)
+                h2, k2 = _script_slots(q)[k]
+                sc2, j = locate(h2[k2], path)
+                del sc2[j]["sub"]
+                cands.append(q)
+    # names: a dotted / reused name replaced by a fresh plain one (dependencies follow)
+    for tp, t, sp, s_, _ in iter_tests(p):
+        if "." in t["name"] or sum(1 for x, *_ in iter_tests(p) if x[-1] == t["name"]) > 1:
+            q = copy.deepcopy(p)
+            new = "t%dz" % sum(1 for _ in iter_tests(p))
+            for tp2, t2, *_ in iter_tests(q):
+                t2["deps"] = [(d[:-1] + [new]) if d == tp else d for d in t2["deps"]]
+            for tp2, t2, *_ in iter_tests(q):
+                if tp2 == tp:
+                    t2["name"] = new
+                    break
+            cands.append(q)
+    for sp, s_, _ in iter_suites(p):
+        if "." in s_["name"]:
+            q = copy.deepcopy(p)
+            new = "s%dz" % len(sp)
+            for sp2, s2, _ in iter_suites(q):
+                if sp2 == sp:
+                    s2["name"] = new
+                    break
+            cands.append(q)
     for q in cands:
         q = out(q)
         if q is not None:
